@@ -19,18 +19,19 @@ MANIFEST = dict(
     category='model_checking', design_ref='DESIGN.md §3 C08',
     engine='E1-history',
     technique='exhaustive enumeration of insertion-order histories (<=4 of 6 lexicons, optional remove/re-add) x specifier atoms x ordered atom pairs x lang on the real database vs the documented resolution',
-    text='For every ordered selection of up to 4 of the lexicons a:1, a:1.0, a:2+x, ab:1 (en) and b:1, b:2-rc (es) - 517 installation histories, each also followed by one remove + re-add so that recency follows the last addition - every specifier atom (*, bare id, id:version, id:*, *:version, star globs, unknown id/version), every ordered pair of atoms and every lang value (None, en, es, xx) is resolved by Wordnet(...).lexicons(); the result set must equal the documented resolution (bare id = the most recently added lexicon of that id, lists = union), Wordnet must raise wn.Error exactly when nothing at all matches (and wn.lexicons() return []), no unmatched lexicon may ever be selected, and wn.remove(spec) on a snapshot must remove exactly the resolved lexicons.',
+    text='For every ordered selection of up to 4 of the lexicons a:1, a:1.0, a:2+x (en), ab:1 (cmn-Hans) and b:1, b:2-rc (es; some declaring dependencies that are not installed) - 517 installation histories, each also followed by one remove + re-add so that recency follows the last addition - every specifier atom (*, bare id, id:version, id:*, *:version, star globs, unknown id/version), every ordered pair of atoms and every lang value (None, en, es, cmn-Hans, xx) is resolved by Wordnet(...).lexicons(); the result set must equal the documented resolution (bare id = the most recently added lexicon of that id, lists = union), Wordnet must raise wn.Error exactly when nothing at all matches (and wn.lexicons() return []), no unmatched lexicon may ever be selected, and wn.remove(spec) on a snapshot must remove exactly the resolved lexicons.',
     note='Only * wildcards (?, [...] are undocumented); star globs are written with an explicit colon or as an id prefix (where both readings of the documentation agree); all versions of one id share a language so that "most recent" and the lang filter commute.',
 )
 
-LEXS = [('a', '1', 'en'), ('a', '1.0', 'en'), ('a', '2+x', 'en'), ('ab', '1', 'en'),
+LEXS = [('a', '1', 'en'), ('a', '1.0', 'en'), ('a', '2+x', 'en'), ('ab', '1', 'cmn-Hans'),
         ('b', '1', 'es'), ('b', '2-rc', 'es')]
+REQUIRES = {4: [{'id': 'zz', 'version': '1'}], 2: [{'id': 'b', 'version': '1'}, {'id': 'zz', 'version': '9'}]}
 ATOMS = ['*', 'a', 'ab', 'b', 'zz', 'a:1', 'a:1.0', 'a:2+x', 'ab:1', 'b:1', 'b:2-rc', 'a:9',
          'a:*', 'ab:*', 'b:*', 'zz:*', '*:1', '*:1.0', '*:2+x', '*:9', 'a*', 'b*', 'a*:1',
          '*:1*', '*:2*', 'a*:*', '*:*']
 QUICK_ATOMS = ['*', 'a', 'ab', 'b', 'zz', 'a:1', 'a:2+x', 'b:2-rc', 'a:9', 'a:*', 'b:*',
                '*:1', 'a*', '*:1*', '*:2*']
-LANGS = [None, 'en', 'es', 'xx']
+LANGS = [None, 'en', 'es', 'cmn-Hans', 'xx']
 
 
 def spec(i):
@@ -40,9 +41,9 @@ def spec(i):
 def build(i):
     lid, ver, lang = LEXS[i]
     P = f'{lid}{i}-'
-    return mk.resource([mk.lexicon(lid, ver, lang,
+    return mk.resource([mk.lexicon(lid, ver, lang, requires=REQUIRES.get(i, ()),
                                    entries=[mk.entry(P + 'e', 'w', 'n', senses=[mk.sense(P + 's', P + 'ss')])],
-                                   synsets=[mk.synset(P + 'ss', 'n', 'i1')])], '1.0')
+                                   synsets=[mk.synset(P + 'ss', 'n', 'i1')])], '1.1')
 
 
 def _glob(pat, s):
